@@ -244,6 +244,23 @@ func literalNodes() (out string) {
 					}
 				}
 			}
+			// metadata: what a constructor accepts must unseal again (whatever the bounds policy for metadata is)
+			if n, ok := v.(datamodel.Node); ok {
+				if mt, err := invocation.New(k.did, k.did, command.MustParse("/x"), nil, invocation.WithMeta("k", n)); err == nil {
+					if sealed, _, err := mt.ToSealed(k.priv); err == nil {
+						if _, _, err := invocation.FromSealed(sealed); err != nil {
+							problems = append(problems, "invocation with metadata "+where+" seals but does not unseal: "+err.Error())
+						}
+					}
+				}
+				if dt, err := delegation.Root(k.did, k.did, command.MustParse("/x"), nil, delegation.WithMeta("k", n)); err == nil {
+					if sealed, _, err := dt.ToSealed(k.priv); err == nil {
+						if _, _, err := delegation.FromSealed(sealed); err != nil {
+							problems = append(problems, "delegation with metadata "+where+" seals but does not unseal: "+err.Error())
+						}
+					}
+				}
+			}
 			tk, err := invocation.New(k.did, k.did, command.MustParse("/x"), nil, invocation.WithArgument("k", v))
 			if err == nil {
 				if n, err := tk.Arguments().GetNode("k"); err == nil && !intsWithin(n) {
@@ -262,6 +279,83 @@ func literalNodes() (out string) {
 		if len(problems) > 4 {
 			problems = append(problems[:4], fmt.Sprintf("… %d more", len(problems)-4))
 		}
+		return strings.Join(problems, "; ")
+	}
+	return "ok"
+}
+
+// ctorWellFormed: whatever options a caller combines, a token that a constructor returns has a defined issuer, the
+// principals its type requires and a nonce of at least 12 bytes, and it unseals again.
+func ctorWellFormed() (out string) {
+	defer func() {
+		if r := recover(); r != nil {
+			out = fmt.Sprint("panic: ", r)
+		}
+	}()
+	var problems []string
+	k := keyFor("ed25519", 0)
+	aud := keyFor("ed25519", 1)
+	invOpts := map[string][]invocation.Option{
+		"default":            nil,
+		"WithEmptyNonce":     {invocation.WithEmptyNonce()},
+		"WithNonce(empty)":   {invocation.WithNonce([]byte{})},
+		"WithNonce(nil)":     {invocation.WithNonce(nil)},
+		"WithNonce(1 byte)":  {invocation.WithNonce([]byte{1})},
+		"WithNonce(11 byte)": {invocation.WithNonce(make([]byte, 11))},
+		"WithNonce(12 byte)": {invocation.WithNonce(make([]byte, 12))},
+		"empty then meta":    {invocation.WithEmptyNonce(), invocation.WithMeta("a", "b")},
+	}
+	for name, opts := range invOpts {
+		t, err := invocation.New(k.did, aud.did, command.MustParse("/x"), nil, opts...)
+		if err != nil {
+			continue
+		}
+		if len(t.Nonce()) < 12 {
+			problems = append(problems, fmt.Sprintf("invocation.New(%s) returned a token with a nonce of %d bytes", name, len(t.Nonce())))
+		}
+		if !t.Issuer().Defined() || !t.Subject().Defined() {
+			problems = append(problems, "invocation.New("+name+") returned a token without issuer or subject")
+		}
+		if sealed, _, err := t.ToSealed(k.priv); err == nil {
+			if _, _, err := invocation.FromSealed(sealed); err != nil {
+				problems = append(problems, "invocation.New("+name+") seals but does not unseal: "+err.Error())
+			}
+		}
+	}
+	dlgOpts := map[string][]delegation.Option{
+		"default":            nil,
+		"WithNonce(empty)":   {delegation.WithNonce([]byte{})},
+		"WithNonce(nil)":     {delegation.WithNonce(nil)},
+		"WithNonce(11 byte)": {delegation.WithNonce(make([]byte, 11))},
+		"WithNonce(12 byte)": {delegation.WithNonce(make([]byte, 12))},
+	}
+	for name, opts := range dlgOpts {
+		for _, root := range []bool{true, false} {
+			var t *delegation.Token
+			var err error
+			if root {
+				t, err = delegation.Root(k.did, aud.did, command.MustParse("/x"), nil, opts...)
+			} else {
+				t, err = delegation.New(k.did, aud.did, command.MustParse("/x"), nil, opts...)
+			}
+			if err != nil {
+				continue
+			}
+			if len(t.Nonce()) < 12 {
+				problems = append(problems, fmt.Sprintf("delegation constructor (%s) returned a token with a nonce of %d bytes", name, len(t.Nonce())))
+			}
+			if !t.Issuer().Defined() || !t.Audience().Defined() {
+				problems = append(problems, "delegation constructor ("+name+") returned a token without issuer or audience")
+			}
+			if sealed, _, err := t.ToSealed(k.priv); err == nil {
+				if _, _, err := delegation.FromSealed(sealed); err != nil {
+					problems = append(problems, "delegation constructor ("+name+") seals but does not unseal: "+err.Error())
+				}
+			}
+		}
+	}
+	sort.Strings(problems)
+	if len(problems) > 0 {
 		return strings.Join(problems, "; ")
 	}
 	return "ok"
